@@ -21,6 +21,12 @@ IsEvent(e) == l <= Len(Rec) /\ Rec[l].e = e /\ l' = l + 1
 
 TInit == l = 1 /\ SSInit
 
+\* a new chain (the previous one may have died inside a search, e.g. with an error before the first probe)
+TrReset ==
+    /\ IsEvent("reset")
+    /\ phase' = "idle" /\ dir' = "none" /\ k' = 0 /\ n' = 0
+    /\ outcome' = "none" /\ finalK' = 0 /\ estK' = NoEst /\ hist' = <<>>
+
 TrStart ==
     /\ IsEvent("start")
     /\ phase \in {"idle", "done"}
@@ -59,7 +65,7 @@ TrEnd ==
 
 \* (an Err return of init() emits no end event: the next line is the start of another search)
 
-TNext == TrStart \/ TrFixed \/ TrFirst \/ TrTry \/ TrEnd
+TNext == TrReset \/ TrStart \/ TrFixed \/ TrFirst \/ TrTry \/ TrEnd
 TSpec == TInit /\ [][TNext]_tvars
 
 Accepted ==
